@@ -452,6 +452,7 @@ func (s *Store[H]) Append(ctx context.Context, headers ...H) error {
 // (2) Batching header writes
 func (s *Store[H]) flushLoop(ctx context.Context) {
 	defer close(s.writesDn)
+	defer verifRecover("flushLoop")
 
 	// flush queues the given headers into the pending batch and writes the batch out once it is
 	// grown enough or if forced.
